@@ -211,6 +211,26 @@ Theorem C20_pulse_correlation_not_computed : forall p, p_pc p = false ->
 Proof. exact pc_not_computed. Qed.
 Print Assumptions C20_analysis_correlations.
 
+(* ---------------------------------------------------------------- cumulant function, error transfer matrix *)
+Theorem C20_sound_cumulant : forall q, valid_analysis (q_a q) -> q_have_spectrum q = true -> q_have_omega q = true ->
+  q_decay_given q = false -> (q_second_order q = true -> a_which (q_a q) = "total"%string /\ (q_shifts_given q = true -> q_shifts_shape_ok q = true)) ->
+  validate_cumulant q = ok.
+Proof. exact validate_cumulant_sound. Qed.
+Theorem C20_cumulant_complete : forall q, In (a_which (q_a q)) ["total"; "correlations"]%string ->
+  (q_have_spectrum q = false -> q_have_omega q = false -> q_decay_given q = false -> validate_cumulant q = Raise ValueError) /\
+  (q_have_spectrum q = false -> q_have_omega q = false -> q_second_order q = true -> q_shifts_given q = false -> validate_cumulant q = Raise ValueError) /\
+  (q_have_spectrum q = true -> a_which (q_a q) = "correlations"%string -> q_second_order q = true -> validate_cumulant q = Raise ValueError) /\
+  (q_decay_given q = true -> a_which (q_a q) = "total"%string -> q_second_order q = true -> q_shifts_given q = true -> q_shifts_shape_ok q = false ->
+   validate_cumulant q = Raise ValueError).
+Proof. exact validate_cumulant_complete. Qed.
+Theorem C20_error_transfer_matrix : forall t,
+  (t_cum t = KNotArray -> validate_etm t = Raise TypeError) /\
+  (forall s a b, t_cum t = KArray (s ++ [a; b]) -> a <> b -> validate_etm t = Raise ValueError) /\
+  (forall a, t_cum t = KArray [a] -> validate_etm t = Raise ValueError) /\
+  (t_cum t = KNone -> t_have_pulse t && q_have_spectrum (t_q t) && q_have_omega (t_q t) = false -> validate_etm t = Raise ValueError) /\
+  (forall s a, t_cum t = KArray (s ++ [a; a]) -> validate_etm t = ok).
+Proof. exact validate_etm_complete. Qed.
+
 (* ---------------------------------------------------------------- complete: Basis, dims arguments *)
 Theorem C20_basis_complete : forall d os labels, os <> [] -> Forall (good_oper d) os ->
   (d * d < length os -> validate_basis_new (Build_basis_new_d (GOpers os) labels) = Raise ValueError) /\
